@@ -559,6 +559,68 @@ func init() {
 			}
 			c.Check(n >= 2, fk+" :: verification calls found", w.pos(f.Pos()), "verifySkipping and the retry", fmt.Sprintf("%d verification calls", n))
 		}
+		// (c) when a witness is promoted, the provider put (back) among the witnesses is the *old* primary: it
+		// is read before c.primary is overwritten, and the promoted witness's index is handed to removal
+		if f := c.fn("light", "Client.findNewPrimary"); f != nil {
+			fk := funcKey(f)
+			var primStores, wappends []ssa.Instruction
+			for _, di := range w.deepInstrs(f, 1) {
+				st, ok := di.in.(*ssa.Store)
+				if !ok {
+					continue
+				}
+				fa, ok := st.Addr.(*ssa.FieldAddr)
+				if !ok {
+					continue
+				}
+				switch fieldName(fa.X.Type(), fa.Field) {
+				case "primary":
+					primStores = append(primStores, st)
+				case "witnesses":
+					if strings.HasPrefix(w.expr(st.Val), "append(") && strings.Contains(w.expr(st.Val), "varargs") {
+						wappends = append(wappends, st)
+					}
+				}
+			}
+			c.Check(len(primStores) >= 1, fk+" :: promotion found", w.pos(f.Pos()), "c.primary = witness", "no store to c.primary")
+			for _, ap := range wappends {
+				bad := false
+				for _, ps := range primStores {
+					if ps.Parent() != ap.Parent() {
+						continue
+					}
+					q := &pathQ{target: func(in ssa.Instruction) bool { return in == ap }}
+					if hit, _ := q.reach(ps.Block(), instrIndex(ps)+1); hit != nil {
+						bad = true
+					}
+				}
+				c.Check(!bad, k.key(f, "the provider re-added as a witness is read before the primary is replaced"), w.ipos(ap), "append(witnesses, old primary) precedes c.primary = promoted", "c.primary is overwritten before it is appended to the witnesses: the promoted witness ends up in its own witness list and confirms itself")
+			}
+		}
+		// (d) the client hands each of its configured limits to the verifier parameter of the same meaning
+		// (two of them are time.Durations: the clock-drift bound must not be fed from the block-lag setting)
+		role := map[string]string{"maxClockDrift": "maxClockDrift", "trustingPeriod": "trustingPeriod", "trustLevel": "trustLevel"}
+		nRole := 0
+		for _, s := range w.allCallsTo("light#Verify", "light#VerifyAdjacent", "light#VerifyNonAdjacent", "light#VerifyBackwards") {
+			if !isMethodOf(s.Fn, "light", "Client") || strings.HasSuffix(w.Fset.Position(s.Instr.Pos()).Filename, "_test.go") {
+				continue
+			}
+			call := s.Instr.(ssa.CallInstruction)
+			callee := staticCallee(call)
+			if callee == nil {
+				continue
+			}
+			for i, p := range callee.Params {
+				fld, ok := role[p.Name()]
+				if !ok || i >= len(call.Common().Args) {
+					continue
+				}
+				nRole++
+				got := w.expr(call.Common().Args[i])
+				c.Check(got == "c."+fld, k.key(s.Fn, "verifier parameter "+p.Name()+" is fed from the client's "+fld), w.ipos(call), "c."+fld, callee.Name()+"'s "+p.Name()+" is given "+got)
+			}
+		}
+		c.Check(nRole >= 5, "light.Client :: verifier limit arguments found", "-", ">= 5", fmt.Sprintf("%d", nRole))
 		for _, s := range w.allCallsTo("light#NewClient", "light#NewClientFromTrustedStore") {
 			if strings.HasSuffix(w.Fset.Position(s.Instr.Pos()).Filename, "_test.go") {
 				continue
